@@ -572,7 +572,14 @@ def slice_kernel(modname, qualname, names, guards=True, space=None,
                              isinstance(n.ctx, ast.Load))
             for nm in sorted(reads - known):
                 for st in node.body:
-                    if st not in picked and _targets(st) == [nm]:
+                    if st in picked:
+                        continue
+                    if isinstance(st, ast.If):
+                        inner = assigned_in(st.body) + assigned_in(st.orelse)
+                        hit = inner and None not in inner and nm in inner
+                    else:
+                        hit = nm in _targets(st)
+                    if hit:
                         picked.append(st)
                         changed = True
                 known.add(nm)
